@@ -89,7 +89,7 @@ def shards(tier):
     # full products on the base configurations, split by the first choice
     for side in ('lock', 'free'):
         for cur in (True, False):
-            for w in INITW:
+            for w in (INITW if cur else INITW[:1]):
                 for first in range(len(ENV)):
                     out.append({'mode': 'full', 'cfg': dict(BASE, side=side, cur=cur, w=w), 'first': first})
     # deviation-bounded sequences on every configuration (single-axis deviations of dt/motor/init/topology)
